@@ -156,7 +156,21 @@ func genLexGram(r *rand.Rand, name string, hashBuggy bool) *lexGram {
 	// start conditions
 	scs := []string{""}
 	g.SCNames, g.Inclusive = []string{"initial"}, []bool{true}
-	switch r.Intn(4) {
+	switch r.Intn(5) {
+	case 4:
+		// inclusive start conditions WITHOUT an explicit `initial` (it is implicitly the first one)
+		if r.Intn(2) == 0 {
+			g.Decls = append(g.Decls, "%s sa;")
+			g.SCNames, g.Inclusive = []string{"initial", "sa"}, []bool{true, true}
+			g.NState = 2
+			scs = []string{"", "<sa> ", "<initial> ", "", "<*> "}
+		} else {
+			g.Decls = append(g.Decls, "%s sa, sb;")
+			g.SCNames, g.Inclusive = []string{"initial", "sa", "sb"}, []bool{true, true, true}
+			g.NState = 3
+			scs = []string{"", "<sa> ", "<sb> ", "<initial, sb> ", "", "<*> "}
+		}
+		tag("inclusive-sc-implicit-initial")
 	case 0:
 		g.Decls = append(g.Decls, "%s initial, sa;")
 		g.SCNames, g.Inclusive = []string{"initial", "sa"}, []bool{true, true}
@@ -312,6 +326,16 @@ func genLexGram(r *rand.Rand, name string, hashBuggy bool) *lexGram {
 	}
 	if len(kws) > 8 {
 		tag("keywords>8")
+	}
+	if withClass && r.Intn(2) == 0 {
+		// constant lexemes that START with a text the class rule matches and continue with characters it
+		// does not: no specialisations of the class rule, they must stay rules of their own
+		ext := [][2]string{{"a-b", `a-b`}, {"if+", `if\+`}, {"ab.cd", `ab\.cd`}, {"do!", `do!`}, {"e=", `e=`}, {"x1", `x1`}, {"in?", `in\?`}}
+		r.Shuffle(len(ext), func(a, b int) { ext[a], ext[b] = ext[b], ext[a] })
+		for _, e := range ext[:1+r.Intn(3)] {
+			add(lexRule{sc: idSC, name: "'" + e[0] + "'", pat: e[1], frags: []string{e[0], e[0], e[0][:1], e[0][:len(e[0])-1], e[0] + "x"}})
+		}
+		tag("constants-extending-a-class-match")
 	}
 	if otherID != "" && !otherFirst {
 		addOther()
